@@ -681,11 +681,11 @@ var extraShapes = os.Getenv("C02_EXTRA") != "0"
 // (unkeyed core case) and once with it (keyed). C02_SOLVE_FAULTS=0 switches them off.
 var solveFaults = os.Getenv("C02_SOLVE_FAULTS") != "0"
 
-// relaxGroups (env C02_RELAX_GROUPS=1): a pod that carries a spread constraint AND can be relaxed in a way that changes
+// relaxGroups (C02_RELAX_GROUPS=0 switches it off): a pod that carries a spread constraint AND can be relaxed in a way that changes
 // its node filter (several OR-ed node-affinity terms, or a PreferNoSchedule pool it does not tolerate). Update then
 // creates a new spread group in the middle of the pass, which misses the pods placed earlier (reported, key
-// kfRelaxGroup, not yet listed). By default only the normalised core case (single term / NoSchedule taint) is run.
-var relaxGroups = os.Getenv("C02_RELAX_GROUPS") == "1"
+// kfRelaxGroup, a known finding). The normalised core case (single term / NoSchedule taint) is run unkeyed next to it.
+var relaxGroups = os.Getenv("C02_RELAX_GROUPS") != "0"
 
 func relaxGroupShape(sc sCase) bool {
 	pns := lo.SomeBy(sc.Pools, func(p sPool) bool { return p.PreferNoSchedule })
@@ -914,7 +914,8 @@ func emitWorld(c *kit.Ctx, sc sCase, results provscheduling.Results, byUID map[t
 		if n.InFlight {
 			lab[hostKey] = []string{n.Name} // not registered yet: its hostname will be a fresh, unique domain
 		}
-		gnodes = append(gnodes, gNode(n.Name, false, lab, n.Tainted))
+		// an in-flight NodeClaim is not a Node yet: like a new node it contributes no topology domain of its own
+		gnodes = append(gnodes, gNode(n.Name, n.InFlight, lab, n.Tainted))
 		nodeTainted[n.Name] = n.Tainted
 	}
 	for _, bp := range sc.Bound {
@@ -1134,9 +1135,7 @@ func findingShape(sc sCase, newDomains map[string]map[string][]string) string {
 	if strings.HasPrefix(sc.Fault, "solve:") {
 		return kfUpdateError
 	}
-	if relaxGroupShape(sc) {
-		return kfRelaxGroup
-	}
+
 	for _, sp := range sc.Batch {
 		if _, ok := placedNode(sp); !ok {
 			continue
@@ -1201,6 +1200,9 @@ func findingShape(sc sCase, newDomains map[string]map[string][]string) string {
 				}
 			}
 		}
+	}
+	if relaxGroupShape(sc) {
+		return kfRelaxGroup
 	}
 	return ""
 }
